@@ -58,15 +58,14 @@ Theorem C19_var_nonneg : forall d l v, var_l d l = Some v -> 0 <= v.
 Proof. exact var_nonneg_l. Qed.
 Print Assumptions C19_var_nonneg.
 
-(* the order of the rows cannot matter for sum / min / max / mean / count / var / std (values equal as rationals) *)
-Theorem C19_agg_perm_invariant : forall op c c', perm_invariant_op op = true -> Permutation c c' ->
-  oq_eq (agg_spec op c) (agg_spec op c').
-Proof. exact agg_perm_l. Qed.
+(* the order of the rows cannot matter for ANY aggregate: sum / min / max / mean / count / var / std / median
+   (values equal as rationals) *)
+Theorem C19_agg_perm_invariant : forall op c c', Permutation c c' -> oq_eq (agg_spec op c) (agg_spec op c').
+Proof. exact agg_perm_all_l. Qed.
 Print Assumptions C19_agg_perm_invariant.
 Example C19_agg_perm_invariant_ex : Permutation [Some 1; None; Some (3#2)] [None; Some (3#2); Some 1]
                                     /\ agg_spec AVar [Some 1; None; Some (3#2)] <> None.
 Proof. split. apply perm_trans with [None; Some 1; Some (3#2)]; repeat constructor. discriminate. Qed.
-(* (median is order-independent too -- it sorts -- but that is not proved here: perm_invariant_op AMedian = false) *)
 
 (* order-DEPENDENT operations: first / last of a window, forward fill *)
 Theorem C19_first_last_order_dependent : exists c c', Permutation c c' /\
